@@ -2,6 +2,8 @@ import FqModel.Codec
 import Proofs.C14Codec
 import Proofs.C14Text
 import Proofs.C14Url
+import Proofs.C14Xml
+import Proofs.C14Csv
 import FqModel.C14Hash
 import FqModel.C14Json
 import Proofs.C14Json
@@ -88,6 +90,112 @@ example : encodeQuery [(bytesOfAscii "a", [bytesOfAscii "1", bytesOfAscii "2"]),
 /-- malformed query strings are errors (bad escape, semicolon separator); empty pieces are skipped -/
 example : parseQuery (bytesOfAscii "a=%zz") = none ∧ parseQuery (bytesOfAscii "a=1;b=2") = none ∧
     parseQuery (bytesOfAscii "&&a=1&&a&") = some [(bytesOfAscii "a", [bytesOfAscii "1", []])] := by decide +kernel
+
+
+/-! ## XML (stretch): fq's element-tree ⇄ jq-value mapping (format/xml/xml.go) on an abstract element
+    tree `Xml.XNode` (name, attributes, optional text, children).  encoding/xml's text layer is an
+    ASSUMED bijection for identifier names (modulo `Xml.cleanText`); compared end to end by the
+    correspondence run (`xmlarr`, `xmlseq` ops), not proved. -/
+
+/-- array form `["name", {attrs, "#text"} | null, [children]]`: toXMLFromArray reads back exactly the
+    tree that fromXMLToArray wrote, for every tree with non-empty names and name-sorted attributes
+    other than `#text` / `#comment` (any depth, any number of children, repeated names) -/
+theorem xml_array_roundtrip (n : Xml.XNode) (h : Proofs.C14X.WFNode n) : Xml.fromArr (Xml.toArr n) = some n :=
+  Proofs.C14X.fromArr_toArr n h
+
+/-- the `#seq` ordering rule: grouping the children of an element by name with their positions as
+    `#seq` (from_xml({seq:true})), then flattening the groups and sorting by `#seq` (to_xml), gives
+    back the children in document order — for ALL child lists, in particular interleaved repeated
+    names where every child sits in an array (the case seeded change S-C14-1 broke) -/
+theorem xml_seq_order {α : Type} (cs : List (List Char × α)) : Xml.seqRoundTrip cs = cs :=
+  Proofs.C14X.seqRoundTrip_id cs
+
+example : Proofs.C14X.WFNode (.mk "r".toList [("k".toList, "v".toList)] (some "t".toList)
+    [.mk "a".toList [] none [], .mk "b".toList [] none [], .mk "a".toList [] (some "x".toList) []]) := by
+  simp [Proofs.C14X.WFNode, Proofs.C14X.WFNodes, Json.ltKey, Xml.textKey, Xml.commentKey]
+example : Xml.groupChildren [("a".toList, 0), ("b".toList, 1), ("a".toList, 2), ("b".toList, 3)]
+    = [("a".toList, [(0, 0), (2, 2)]), ("b".toList, [(1, 1), (3, 3)])] := by decide
+/- Without `#seq` to_xml sorts the children by name (`Xml.sortByName`), so the document order of
+   interleaved names is lost by design ("otherwise order might be lost", xml.md); and because that
+   sort is sort.Sort on a random map order, even the relative order of same-named children is
+   lost for more than 12 children — known finding xml-object-unstable-name-sort. -/
+
+/-! ## CSV (stretch): `to_csv | from_csv` as fq configures encoding/csv (format/csv/csv.go: Comment '#',
+    LazyQuotes, TrimLeadingSpace; Writer quoting).  `TableOK rows`: every row has at least one
+    field, is not the single empty field, its first field does not start with '#', no field
+    contains CR LF, and all rows have the same length.  Fields may contain commas, quotes, line
+    feeds, lone CRs, leading/trailing white space, any unicode. -/
+
+section csv
+open FqModel.Csv Proofs.C14Csv
+
+theorem csv_roundtrip (rows : List Row) (h : TableOK rows) : fromCsv (toCsv rows) = some rows :=
+  fromCsv_toCsv rows h
+
+/-- malformed: a table whose rows are not all as long as the first one is an error (ErrFieldCount,
+    reported by fq since /repo 9e1007fc).  With LazyQuotes an unterminated quote is NOT an error
+    in encoding/csv (the field simply ends with the input), see the example below. -/
+theorem csv_reject (first : Row) (pre : List Row) (r : Row) (post : List Row)
+    (hfields : ∀ x ∈ first :: (pre ++ r :: post), ∀ f ∈ x, FieldOK f)
+    (hfirst : RowOK first) (hpre : ∀ x ∈ pre, RowOK x ∧ x.length = first.length)
+    (hr : RowOK r) (hlen : r.length ≠ first.length) :
+    fromCsv (toCsv (first :: (pre ++ r :: post))) = none :=
+  fromCsv_ragged first pre r post hfields hfirst hpre hr hlen
+
+/-- each of the three exclusions of `TableOK` is necessary (the known findings csv-comment-row,
+    csv-single-empty-field, csv-crlf-in-field): -/
+theorem csv_comment_row_witness :
+    fromCsv (toCsv [["#a".toList, "b".toList], ["x".toList, "y".toList]]) = some [["x".toList, "y".toList]] := by
+  unfold fromCsv
+  rw [norm_toCsv _ (by
+    intro r hr f hf
+    simp only [List.mem_cons, List.mem_nil_iff, or_false] at hr
+    rcases hr with rfl | rfl <;> simp only [List.mem_cons, List.mem_nil_iff, or_false] at hf <;>
+      rcases hf with rfl | rfl <;> (unfold FieldOK; decide))]
+  decide
+
+theorem csv_single_empty_field_witness :
+    fromCsv (toCsv [[[]], ["x".toList]]) = some [["x".toList]] := by
+  unfold fromCsv
+  rw [norm_toCsv _ (by
+    intro r hr f hf
+    simp only [List.mem_cons, List.mem_nil_iff, or_false] at hr
+    rcases hr with rfl | rfl <;> simp only [List.mem_cons, List.mem_nil_iff, or_false] at hf <;>
+      subst hf <;> (unfold FieldOK; decide))]
+  decide
+
+theorem csv_crlf_witness :
+    fromCsv (toCsv [["a\r\nb".toList]]) = some [["a\nb".toList]] := by
+  have h : toCsv [["a\r\nb".toList]] = ['"', 'a', '\r', '\n', 'b', '"', '\n'] := by decide
+  unfold fromCsv
+  rw [h, norm_cons_ne '"' _ (by decide), norm_cons_ne 'a' _ (by decide), norm_crlf,
+    norm_cons_ne 'b' _ (by decide), norm_cons_ne '"' _ (by decide), norm_cons_ne '\n' _ (by decide), norm_nil]
+  decide
+
+example : TableOK [["a,b".toList, " x".toList, []], ["\"q\"".toList, "l1\nl2".toList, "\r".toList]] := by
+  refine ⟨?_, ?_⟩
+  · intro r hr
+    simp only [List.mem_cons, List.mem_nil_iff, or_false] at hr
+    rcases hr with rfl | rfl
+    · refine ⟨⟨by simp, by simp, ?_⟩, ?_⟩
+      · intro f rest c cs e1 e2; cases e1; cases e2; decide
+      · intro f hf; simp only [List.mem_cons, List.mem_nil_iff, or_false] at hf
+        rcases hf with rfl | rfl | rfl <;> (unfold FieldOK; decide)
+    · refine ⟨⟨by simp, by simp, ?_⟩, ?_⟩
+      · intro f rest c cs e1 e2; cases e1; cases e2; decide
+      · intro f hf; simp only [List.mem_cons, List.mem_nil_iff, or_false] at hf
+        rcases hf with rfl | rfl | rfl <;> (unfold FieldOK; decide)
+  · intro r hr r' hr'
+    simp only [List.mem_cons, List.mem_nil_iff, or_false] at hr hr'
+    rcases hr with rfl | rfl <;> rcases hr' with rfl | rfl <;> rfl
+example : toCsv [["a,b".toList, " x".toList, []], ["\"q\"".toList, "l1\nl2".toList, "\r".toList]]
+    = "\"a,b\",\" x\",\n\"\"\"q\"\"\",\"l1\nl2\",\"\r\"\n".toList := by decide
+/-- LazyQuotes: a quote that is never closed ends with the input, a bare quote is literal -/
+example : fromCsv "\"ab".toList = some [["ab".toList]] ∧ fromCsv "a\"b,c\n".toList = some [["a\"b".toList, "c".toList]] := by
+  unfold fromCsv
+  rw [norm_no_cr _ (by decide), norm_no_cr _ (by decide)]
+  decide
+end csv
 
 /-! ## ISO-8859-1 -/
 
